@@ -30,9 +30,19 @@ func DeserializeSessionDescription(msg string) (*webrtc.SessionDescription, erro
 	if _, ok := parsed["sdp"]; !ok {
 		return nil, errors.New("cannot deserialize SessionDescription without sdp field")
 	}
+	// The message comes from an untrusted peer: the members may be of any
+	// JSON type, so the type assertions must be checked.
+	typeStr, ok := parsed["type"].(string)
+	if !ok {
+		return nil, errors.New("cannot deserialize SessionDescription: type field is not a string")
+	}
+	sdpStr, ok := parsed["sdp"].(string)
+	if !ok {
+		return nil, errors.New("cannot deserialize SessionDescription: sdp field is not a string")
+	}
 
 	var stype webrtc.SDPType
-	switch parsed["type"].(string) {
+	switch typeStr {
 	default:
 		return nil, errors.New("Unknown SDP type")
 	case "offer":
@@ -47,7 +57,7 @@ func DeserializeSessionDescription(msg string) (*webrtc.SessionDescription, erro
 
 	return &webrtc.SessionDescription{
 		Type: stype,
-		SDP:  parsed["sdp"].(string),
+		SDP:  sdpStr,
 	}, nil
 }
 
